@@ -616,6 +616,7 @@ RULES = [
     ("C04-R6", "content-reader constants and default extension lists", r6),
     ("C04-R7", "capability table against linux/capability.h", r7),
     ("C04-R8", "the byte count of Read::read bounds the data examined", lambda ctx: __import__("extra2").read_amount_used(ctx)),
+    ("X-CONFIG", "a setting read from both configurations is the user's value when present, the built-in default otherwise [shared]", lambda ctx: __import__("extra2").user_config_wins(ctx)),
 ]
 
 EXPLANATION = (
